@@ -58,6 +58,11 @@ claimed = {
   ref="DESIGN.md §3 C20",
   bounds=["file length 0..48 symbolic with symbolic content; keys 16/24/32/other lengths, all bytes symbolic; plaintext 0..8 bytes (aeswrapper) or the wallet token (fileoperations)"],
   outside=["AES-GCM itself (ideal AEAD: Open succeeds iff key, nonce and ciphertext are literally a recorded Seal)", "GOB and PEM/x509 codecs (ideal codec)", "os file system faults"]),
+ "C17": dict(
+  text="SaveAwaitedTransaction / RemoveAwaitedTransaction / ReadTransactions (with set/add/read/remove, hex and bytes.Split executed from source, over a key/value model of bigcache) against a map-based model: every sequence of <=3 (quick) / <=4 (thorough) calls over 3 transactions whose issuer and receiver are symbolic among two addresses (issuer = receiver and shared receivers included), listing checked for both addresses; plus every pair save||save, save||remove, save||read on a shared receiver under ALL schedules within 1 (quick) / 2 (thorough) preemptions.",
+  ref="DESIGN.md §3 C17",
+  bounds=["3 transactions, 2 addresses (symbolic), call sequences of length <=3 (quick) / <=4 (thorough)", "concurrent: 2 calls, preemption bound 1 (quick) / 2 (thorough), scheduling points at every cache call and mutex operation"],
+  outside=["bigcache expiry/eviction (no expiry within a run); more than two overlapping calls", "msgpack encoding of the stored transaction (ideal codec)"]),
 }
 
 NA_DEFAULT = "check not built yet in this session; see DESIGN.md §6 build order"
